@@ -271,6 +271,7 @@ class CIMachine(FormatMachine):
     ROUNDTRIP_PROP = "C01"
     KIND = "json"
     FILE = "composeinfo.json"
+    HEADER_TYPE = "productmd.composeinfo"
 
     def mods(self):
         import productmd.composeinfo as m
